@@ -6,6 +6,7 @@ RULE = ("random DAGs (1-14 commands; references through direct parameters, lists
         "loaded by Program.from_source, run, then a random history of 0-8 run()/.result accesses; execute entry/exit "
         "counts, consumed object identities, values and post-history events compared with the Coq model. "
         "non-trivial = distinct program with >= 2 commands, >= 1 reference and a shared dependency or a non-empty history")
+RULE += (' Also: the same graphs built in code with Program.add_command (references by name or by Command object), a command replaced through the API before the run, a deep copy of the program run instead of the program, two programs built from the same argument containers, and histories in which one or two commands fail the first time they execute (the state the failed run leaves behind and the run that follows are compared with Model/SchedFail.v and with run_program started from that state).')
 TRUSTED = ["probe library drivers/verif_cmds (execute pulls every referenced result, as all built-in commands do: "
            "hypothesis pulls_all of the model)"]
 ASSUMPTIONS = ["every execute takes .result of every command it references (true of the probe and of the built-in commands)"]
